@@ -21,3 +21,24 @@ Theorem C20_unsorted_emission_refuted :
   map (fun kv : str * N => fst kv) (id m) <> map (fun kv => fst kv) (rev m).
 Proof. exact unsorted_emission_refuted. Qed.
 Print Assumptions C20_unsorted_emission_refuted.
+
+(* "importing one group into another is equivalent to adding its files directly": `import_group` extends the map with the
+   entries of the other group in THAT map's iteration order (`pg`, any permutation of its entries `g`); the emission equals
+   the one after adding the files of `g` one by one - for every receiving history `a` (files of the same path are replaced
+   either way) and every iteration order of the resulting maps *)
+Theorem C20_import_group_as_direct_add :
+  forall (V : Type) (render : str * V -> str) (o1 o2 : list (str * V) -> list (str * V)) a g pg,
+  (forall l, Permutation (o1 l) l) -> (forall l, Permutation (o2 l) l) ->
+  NoDup (map fst g) -> Permutation pg g ->
+  emit V render o1 (hm_extend V (hm_build V a) pg) = emit V render o2 (hm_build V (a ++ g)).
+Proof. exact import_group_as_direct_add. Qed.
+Print Assumptions C20_import_group_as_direct_add.
+
+(* not vacuous: the receiving group holds `a` and `b`, the imported one `b` (other content) and `c`, iterated backwards *)
+Example C20_import_example :
+  let a := [([97], 1%N); ([98], 2%N)] in
+  let g := [([98], 7%N); ([99], 3%N)] in
+  map fst (sort_by_key N (hm_extend N (hm_build N a) (rev g))) = [[97]; [98]; [99]] /\
+  map snd (sort_by_key N (hm_extend N (hm_build N a) (rev g))) = [1%N; 7%N; 3%N] /\
+  sort_by_key N (hm_extend N (hm_build N a) (rev g)) = sort_by_key N (hm_build N (a ++ g)).
+Proof. vm_compute. repeat split. Qed.
